@@ -10,6 +10,9 @@ model run: the same configuration and the same per-suspension decisions (ok / ca
            the real trace) through the control-flow model EasyNet/Model/ClosePaths.lean (endriver `c14`)
 oracle   : from the real lines only — wrapped transport(s) closed once the operation is over, is_closing() of the outer
            object true, a second close ends normally without virtual time passing.
+path aio : the same close matrix on every transport / listener the REAL asyncio backend creates, on real loopback sockets
+           (vlib/c14_aio.py): OS socket released, port no longer held, is_closing(), second / third / concurrent closes
+           return normally, serve() ended.  Oracle only.
 """
 from __future__ import annotations
 
@@ -19,6 +22,7 @@ from typing import Any
 
 from vlib import core
 from vlib import c14_run as cr
+from vlib import c14_aio as ca
 
 ID = "C14"
 CLAIMED = True
@@ -49,6 +53,8 @@ TRUSTED_BASE = [
     "closing before its first suspension and releases the resource however the wait ends), real OpenSSL peer via ssl.MemoryBIO",
     "CPython 3.12 asyncio task cancellation semantics and EasyNetwork cancel scopes (C13) are represented by the exception "
     "semantics of the model",
+    "path aio: the kernel's loopback sockets, asyncio's selector loop and socket transports, /proc/self/fd (own listening "
+    "sockets), a real OpenSSL peer over a socket",
 ]
 ASSUMPTIONS = [
     "the close operation has started (at least one task step) before the cancellation is requested",
@@ -60,14 +66,18 @@ RULE = (
     "error, busy sender; TLS: shutdown_timeout 0 / tiny / 5 x peer's close_notify already read x wrapped send that does "
     "not suspend; client: close while the connection attempt of another task is in progress, close run as a task / in a "
     "cancel scope / under move_on_after) x cancellation after task step k, k = 1 … N-1 exhaustively (N from a baseline run); non-trivial = "
-    "an injection or a scripted failure or a timeout actually occurred; distinct by full case digest"
+    "an injection or a scripted failure or a timeout actually occurred; distinct by full case digest | path aio (real "
+    "sockets of the asyncio backend): subject (datagram / stream transport, TCP / UDP listener, bare or under endpoint, client, "
+    "TLS transport, TLS listener, low-level server; idle / receive parked / serving / connection in progress) x close matrix "
+    "(task cancelled after task step k = 0..N or after k = 0..6 loop turns, cancel scope, aclose_forcefully, move_on_after(0), "
+    "timeout(0), 2-3 concurrent closers with one disturbed) followed by a second and a third close"
 )
 
 _aux: dict[str, Any] = {}
 
 
 def run_real(case: dict) -> list[str]:
-    lines, aux = cr.run_case(case)
+    lines, aux = (ca.run_case if case["path"] == "aio" else cr.run_case)(case)
     _aux[core.case_digest(case)] = aux
     return lines
 
@@ -77,6 +87,8 @@ def _field(real: list[str], key: str) -> str:
 
 
 def oracle(case: dict, real: list[str]) -> str | None:
+    if case["path"] == "aio":
+        return ca.oracle(case, real)
     for ln in real:
         if ln.startswith(("harness-exc", "main-exc", "client-task hang")):
             return f"unexpected failure: {ln}"
@@ -141,6 +153,8 @@ def _oracle_connect(case: dict, real: list[str], outcome: str) -> str | None:
 
 
 def nontrivial(case: dict, real: list[str]) -> str | None:
+    if case["path"] == "aio":
+        return ca.nontrivial(case, real)
     p = case.get("params") or {}
     feats = []
     if case.get("step") is not None and _field(real, "at"):
@@ -170,6 +184,9 @@ def nontrivial(case: dict, real: list[str]) -> str | None:
 
 
 def shrink(case: dict):
+    if case["path"] == "aio":
+        yield from ca.shrink(case)
+        return
     p = case.get("params") or {}
     for k in ("inner", "send", "recv"):
         if k in p and p[k]:
@@ -192,6 +209,8 @@ def shrink(case: dict):
 
 
 def known_key(case: dict, real: list[str], why: str) -> str:
+    if case["path"] == "aio":
+        return ca.known_key(case, real, why)
     p = case.get("params") or {}
     at = _field(real, "at").split(".")[-1] or "-"
     if at in ("__aenter__", "acquire") and p.get("busy"):
@@ -247,7 +266,7 @@ def decisions(case: dict, real: list[str], aux: dict) -> list[str] | None:
 
 def model_input(case: dict, real: list[str]):
     aux = _aux.get(core.case_digest(case))
-    if aux is None or case["path"] in ("srvclient", "sockadapter"):
+    if aux is None or case["path"] in ("srvclient", "sockadapter", "udpclient"):
         return None
     p = case.get("params") or {}
     if (case["path"] == "tls" and p.get("sc", True) and float(p.get("shutdown_timeout", 30)) == 0
@@ -315,6 +334,10 @@ def configurations(tier: str) -> list[tuple[str, dict]]:
         cfgs.append(("endpoint", {"inner": a}))
         cfgs.append(("tcpclient", {"inner": a}))
         cfgs.append(("tcpclient", {"inner": a, "busy": True}))
+        cfgs.append(("udpclient", {"inner": a}))
+        cfgs.append(("udpclient", {"inner": a, "busy": True}))
+        cfgs.append(("udpclient", {"inner": a, "via": "scope"}))
+        cfgs.append(("udpclient", {"inner": a, "busy": True, "via": "scope"}))
         cfgs.append(("srvclient", {"inner": a}))
         cfgs.append(("srvclient", {"inner": a, "busy": True}))
         cfgs.append(("srvclient", {"inner": a, "via": "scope"}))
@@ -397,14 +420,21 @@ def corpus() -> list[dict]:
                                           "bound": 1, "inner": {"steps": 0}}, "step": None},
         {"path": "tcpconnect", "params": {"connecting": {"via": "wait", "slow": "tls", "delay": 5}, "close": "scope",
                                           "inner": {"steps": 1}}, "step": None},
-    ]
+    ] + ca.corpus()
 
 
 def generate(rng, tier: str, boost: int):
-    cfgs = configurations(tier)
+    cfgs = configurations(tier) + [("aio", params) for params in ca.configurations(tier)]
     rng.shuffle(cfgs)            # (the set is the same for every seed; only the order depends on it)
     for path, params in cfgs:
         base = {"path": path, "params": params, "step": None}
+        if path == "aio":
+            # real sockets of the asyncio backend: the cancellation points come from the undisturbed run of the configuration
+            lines, aux = ca.run_case(base)
+            yield base
+            for k in ca.steps_of(params, aux):
+                yield {"path": path, "params": params, "step": k}
+            continue
         lines, aux = cr.run_case(base)
         yield base
         n = aux.get("n", 0)
@@ -414,5 +444,6 @@ def generate(rng, tier: str, boost: int):
 
 def extra_coverage(stats) -> dict:
     return {"paths": "stapled, endpoint, tls aclose, tls wrap, tcpclient are compared with the Lean model; srvclient "
-                     "(server-side client inside AsyncTCPNetworkServer) runs against the oracle only",
+                     "(server-side client inside AsyncTCPNetworkServer), sockadapter, tcpconnect and aio (real sockets of the "
+                     "asyncio backend) run against the oracle only",
             "exhaustive": "cancellation after every task step 1..N of every listed configuration"}
